@@ -38,6 +38,10 @@ ADDED = {
  "C12_7": "scenario `c12_tworep` (two repliers, the connection of the timed retransmission is dropped)",
  "C14_6": "`Bounded` guard on the socket close of `c14_events` (the hang was *inconclusive* in 7 % of the runs, one *deadlock* verdict)",
  "C15_7": "scenario `c15_reqqueue` (requests queued before the connection exists, raw peer that never reads)",
+ "C11_6": "`c11_sp`: NNG_OPT_RECVMAXSZ lowered on the listener after the hostile peers have connected and before they speak",
+ "C16_6": "`c16_http_srv`: requests for unknown paths that carry a body the server has to skip, followed by further requests",
+ "C18_7": "lockset monitor for identifier tables (`sim/lockset.c`: a table used by several threads without a mutex in common) -- the simulator cannot preempt inside the table code; scenario `c18_ctxrace`",
+ "C20_7": "`c20_sp` wshdr programs: websocket dialer with request headers and a long URI, dialed synchronously and closed right after a failed dial",
  "C10_5": "extra peers arriving through a slow ADD_POST callback in `c10_close` (connections parked between negotiation and accept)",
  "C14_4": "scenario `c14_subset` (subsets of the pipe events registered, registrations dropped while a pipe is up)",
  "C14_5": "scenario `c14_churn` (listener closed and replaced while dialers redial)",
